@@ -34,7 +34,16 @@ import json
 # in RewriteStorage.lean but no `…_wf_anywhere` theorem yet)
 MODELLED = {"insert_pass", "reorder_stmts", "cut_loop", "join_loops", "specialize",
             "eliminate_dead_code", "remove_loop", "add_loop", "fission", "fuse",
-            "shift_loop", "unroll_loop", "divide_loop", "reorder_loops", "mult_loops", "lift_scope"}
+            "shift_loop", "unroll_loop", "divide_loop", "reorder_loops", "mult_loops", "lift_scope",
+            # storage shapes
+            "lift_alloc", "sink_alloc", "delete_buffer", "delete_pass", "bind_expr",
+            "expand_dim", "divide_dim", "mult_dim", "resize_dim",
+            # data shapes
+            "split_write", "merge_writes", "fold_into_reduce", "lift_reduce_constant", "inline_assign",
+            "rewrite_expr",
+            # calls
+            "extract_subproc"}
+# modelled shapes WITHOUT a well-formedness theorem yet: rearrange_dim, unroll_buffer, inline
 
 _DRV = None
 
@@ -65,6 +74,18 @@ def params_of_att(p, att):
         flag = a["where"] == "before"
     elif op == "add_loop":
         flag = bool(a["guard"])
+    elif op == "lift_alloc":
+        k = a.get("n", 1)
+    elif op == "extract_subproc":
+        k = a.get("n", 1)
+    elif op in ("bind_expr", "rewrite_expr"):
+        path = [st for st in path if st[0] in ("body", "orelse")]
+    elif op in ("divide_dim", "resize_dim"):
+        if op == "resize_dim" and a.get("fold"):
+            return None  # no storage model for the folding variant
+        k = a["dim"]
+    elif op == "mult_dim":
+        k = 16 * a["hi"] + a["lo"]
     elif op == "fission":
         if a.get("n_lifts", 1) != 1:
             return None
